@@ -21,7 +21,10 @@ Spec == Init /\ [][Next]_vars
 
 (* L1: outcome alphabet of one run; obs maps every call to ok | error | skipped | panic | hang | crash.  The calls: router *)
 (* construction (both routers), FindRoute (both), ValidateRequest (with the route of either router), ConvertErrors,           *)
-(* ValidateResponse, the strict middleware's ServeHTTP.  Every one of them returns normally: ok or error.                     *)
+(* ValidateResponse, the strict and the lenient middleware's ServeHTTP, the go-kit style error encoder, reading the returned  *)
+(* errors (text, typed parts, causes: "reported as an error" - observed on traffic nested at most 500 deep, the text of an    *)
+(* error being quadratic in depth), and the same request and response validated once more against the same loaded document.  *)
+(* Every one of them returns normally: ok or error.                                                                          *)
 Abnormal == {"panic", "hang", "crash"}
 Normal == {"ok", "error", "skipped"}
 Failed(obs) ==
